@@ -14,6 +14,7 @@ import (
 func init() {
 	vpRegister("vpH_C12_fail", vpH_C12_fail)
 	vpRegister("vpH_C12_cancel", vpH_C12_cancel)
+	vpRegister("vpH_C12_bigcancel", vpH_C12_bigcancel)
 }
 
 var errVPWriter = errors.New("vp: injected writer failure")
@@ -185,4 +186,67 @@ func vpH_C12_cancel() {
 		}
 	}
 	vpReach("C12 cancel end")
+}
+
+// vpBoundaryWriter records the file offset after every Write call.
+type vpBoundaryWriter struct {
+	buf  bytes.Buffer
+	offs []uint64
+}
+
+func (w *vpBoundaryWriter) Write(p []byte) (int, error) {
+	w.buf.Write(p)
+	w.offs = append(w.offs, uint64(w.buf.Len()))
+	return len(p), nil
+}
+
+// C12, cancellation of a large merge: 1030 + 5 documents with a doc-value
+// field in both inputs (the merged doc values cross a 1024-document chunk while
+// the first input is copied), merged through Merger.WriteTo with a 300-byte
+// buffer; the channel is closed when k bytes have reached the writer.
+func vpH_C12_bigcancel() {
+	mk := func(prefix string, n int) []*vpDoc {
+		var ds []*vpDoc
+		for d := 0; d < n; d++ {
+			id := []byte(prefix + vpItoa(d))
+			ds = append(ds, &vpDoc{fields: []*vpField{
+				{name: "_id", store: true, value: id, length: 1, terms: []*vpTerm{{term: id, freq: 1}}},
+				{name: "zz", dv: true, length: 1, terms: []*vpTerm{{term: []byte{'v', byte('a' + d%7)}, freq: 1}}}}})
+		}
+		return ds
+	}
+	sa, sb := vpBuild(mk("a", 1030), 1025), vpBuild(mk("b", 5), 1025)
+	segs := []segment.Segment{sa, sb}
+	drops := []*roaring.Bitmap{nil, nil}
+	ref := &vpBoundaryWriter{}
+	_, err := Merge(segs, drops, 300).WriteTo(ref, nil)
+	vpMust(err, "fault-free merge")
+	total := uint64(ref.buf.Len())
+	try := func(k uint64) {
+		cw := &vpCloseWriter{k: k, ch: make(chan struct{})}
+		cw.check()
+		n, err := Merge(segs, drops, 300).WriteTo(cw, cw.ch)
+		if err != nil {
+			vpAssert(err == segment.ErrClosed, "a cancelled merge returns ErrClosed")
+			vpReach("C12 cancelled")
+		} else {
+			vpAssert(uint64(n) == total && bytes.Equal(cw.buf.Bytes(), ref.buf.Bytes()), "success only with the complete, correct file")
+			vpReach("C12 completed")
+		}
+	}
+	// close points in the last third of the file (the per-field sections of the
+	// last fields; earlier offsets are covered by vpH_C12_cancel on small merges)
+	from := total * 2 / 3
+	if vpSymbolic() {
+		try(vpRange("k", from, total+1))
+	} else {
+		// natively the close points are the write boundaries of the reference run
+		for _, k := range ref.offs {
+			if k >= from {
+				try(k)
+			}
+		}
+		try(total + 1)
+	}
+	vpReach("C12 bigcancel end")
 }
